@@ -192,8 +192,20 @@ func ruleS1(p *Prog, r *Report) {
 				good := false
 				if bs != nil && recvNamed(f) != nil {
 					it := bs.Underlying().(*types.Interface)
-					good = (types.Implements(types.NewPointer(recvNamed(f)), it) || types.Implements(recvNamed(f), it)) &&
-						(f.Name() == "Store" || f.Name() == "Remove")
+					isAdapter := types.Implements(types.NewPointer(recvNamed(f)), it) || types.Implements(recvNamed(f), it)
+					good = isAdapter && (f.Name() == "Store" || f.Name() == "Remove")
+					// a private helper of the adapter that only its Store / Remove call
+					if !good && isAdapter && f.Object() != nil && !f.Object().Exported() {
+						cs := p.CallersOf(f)
+						all := len(cs) > 0
+						for _, c := range cs {
+							t := TopLevel(c.Caller)
+							if recvNamed(t) != recvNamed(f) || (t.Name() != "Store" && t.Name() != "Remove") {
+								all = false
+							}
+						}
+						good = all
+					}
 				}
 				r.Decide(good, R, "ledger-write:"+p.Name(f), p.InstrPos(in),
 					"Ledger.SetValue inside a BaseStorage adapter's Store/Remove", "Ledger.SetValue outside a BaseStorage adapter's Store/Remove")
@@ -203,7 +215,7 @@ func ruleS1(p *Prog, r *Report) {
 	r.Floor(R, "functions with BaseStorage writes", 2, len(bw))
 	r.Floor(R, "BaseStorage write sites", 4, nsites)
 	r.Floor(R, "commit entry points", 2, nEntries)
-	r.Floor(R, "Ledger.SetValue sites", 2, nl)
+	r.Floor(R, "Ledger.SetValue sites", 1, nl)
 }
 
 // implementsAnyRootIface: g is a method whose name belongs to a root-package
